@@ -144,6 +144,14 @@ func (n Number) addQuantum(i uint64) Number {
 // Less returns true if n is less than m. Panics if n and m are a mix of integer
 // and decimal.
 func (n Number) Less(m Number) bool {
+	// Zero has no sign: -0 (which ParseInt accepts) is neither less than
+	// nor different from 0.
+	if n.Value == 0 {
+		n.Negative = false
+	}
+	if m.Value == 0 {
+		m.Negative = false
+	}
 	switch {
 	case n.Negative && !m.Negative:
 		return true
@@ -376,6 +384,10 @@ func ParseInt(s string) (Number, error) {
 
 	var err error
 	n.Value, err = strconv.ParseUint(ns, 0, 64)
+	if n.Value == 0 {
+		// -0 is 0.
+		n.Negative = false
+	}
 	return n, err
 }
 
